@@ -41,6 +41,14 @@ class FunctionInfo:
         a = self.node.args
         return list(a.posonlyargs) + list(a.args)
 
+    TRANSPARENT_DECORATORS = frozenset({"staticmethod", "classmethod", "property", "wraps", "lru_cache", "cache", "cached_property", "abstractmethod", "overload", "singledispatch", "singledispatchmethod", "register", "setter", "getter", "deleter", "contextmanager", "dataclass", "total_ordering", "final", "override", "njit", "jit"})
+
+    @property
+    def rewrapped(self) -> bool:
+        """decorated by something that may validate, convert or re-bind the arguments before the body runs (a repository
+        decorator): what the body sees in its parameters is then not what the caller passed"""
+        return any(d not in self.TRANSPARENT_DECORATORS for d in self.decorators)
+
     @property
     def is_static(self) -> bool:
         return "staticmethod" in self.decorators
